@@ -54,7 +54,8 @@ structure Defects where
   mapKeyExact : Bool
   /-- checker `fieldType`/`methodType` accept a member of a map whatever its key type -/
   mapMemberAnyKey : Bool
-  /-- checker `fieldType` dereferences every pointer level, `fetch` only one (`**struct`) -/
+  /-- checker `fieldType` dereferences every pointer level, `fetch` only one and only towards a
+      struct (`**struct`, `*map`) -/
   derefAllLevels : Bool
   deriving DecidableEq, Repr
 
@@ -77,19 +78,30 @@ inductive Resolution (α : Type) where
   | found (c : α)
   deriving DecidableEq, Repr
 
-/-- the type an embedded field contributes to the next level; going through `*E` makes the path addressable -/
-def embStep (a : Bool) (f : Field) : Ty × Bool :=
+/-- the struct an embedded field `E` / `*E` contributes to the next level -/
+def embTarget (f : Field) : Ty :=
   match f.ty.core with
-  | .ptr u => (u, true)
-  | _ => (f.ty, a)
+  | .ptr u => u
+  | _ => f.ty
 
-/-- the types whose members are at depth `d` of `ta.1`, with addressability -/
+/-- … together with addressability: going through `*E` makes the path addressable -/
+def embStep (a : Bool) (f : Field) : Ty × Bool := (embTarget f, a || f.ty.isPtr)
+
+/-- the embedded (anonymous) fields of a struct type -/
+def Ty.embedded (t : Ty) : List Field := t.fields.filter (·.anon)
+
+/-- the types whose fields are at depth `d` of `t` -/
+def levelTys : Nat → Ty → List Ty
+  | 0, t => [t]
+  | d + 1, t => t.embedded.flatMap fun f => levelTys d (embTarget f)
+
+/-- the same with addressability (needed for pointer-receiver methods) -/
 def levelTypes : Nat → Ty × Bool → List (Ty × Bool)
   | 0, ta => [ta]
-  | d + 1, ta => (levelTypes d ta).flatMap fun ua => (ua.1.fields.filter (·.anon)).map (embStep ua.2)
+  | d + 1, ta => ta.1.embedded.flatMap fun f => levelTypes d (embStep ta.2 f)
 
 def levelFields (d : Nat) (t : Ty) : List Field :=
-  (levelTypes d (t, false)).flatMap fun ua => ua.1.fields
+  (levelTys d t).flatMap Ty.fields
 
 /-- shallowest level with a candidate decides; `n` levels are inspected starting at `d` -/
 def searchLevels {α : Type} (cands : Nat → List α) : Nat → Nat → Resolution α
@@ -184,7 +196,7 @@ def fieldsFromStruct (d : Defects) (σ : Table → Table) (t : Ty) : Table :=
   if d.declOrderMerge then raw else
     raw.keys.foldr (fun n acc =>
       match reflField t.deref n with
-      | .found f => (n, { ty := some f.ty }) :: acc
+      | .found f => if d.unexportedAccepted || f.exported then (n, { ty := some f.ty }) :: acc else acc
       | .ambiguous => (n, { ambiguous := true }) :: acc
       | .notFound => acc) []
 
@@ -256,11 +268,15 @@ def stringKeyOk (d : Defects) (k : Ty) : Bool :=
 
 def Ty.mapKey? (t : Ty) : Option Ty := match t.core with | .map k _ => some k | _ => none
 
+/-- the value `fetch` looks into: through one pointer when it points to a struct -/
+def Ty.fetchBase (t : Ty) : Ty :=
+  if t.kind == .ptr && t.derefOnce.kind == .struct then t.derefOnce else t
+
 /-- `fieldType` of checker/types.go -/
 def fieldType (d : Defects) : Nat → Ty → String → Option Ty
   | 0, _, _ => none
   | n + 1, t, name =>
-    let t := if d.derefAllLevels then t.deref else t.derefOnce
+    let t := if d.derefAllLevels then t.deref else t.fetchBase
     match t.kind with
     | .iface => some interfaceType
     | .map =>
@@ -305,10 +321,6 @@ def methodType (d : Defects) : Nat → Ty → String → Option (Ty × Bool)
 
 What a run on a *fully populated* value of the given type does with a name: `some τ` — a value held in
 a slot of static type `τ` is produced; `none` — the run fails ("cannot fetch …", a reflect panic). -/
-
-/-- the value `fetch` looks into: through one pointer when it points to a struct -/
-def Ty.fetchBase (t : Ty) : Ty :=
-  if t.kind == .ptr && t.derefOnce.kind == .struct then t.derefOnce else t
 
 /-- `fetch(from, name)` for a non-environment value of static type `t` -/
 def fetchTy (d : Defects) (t : Ty) (name : String) : Option Ty :=
